@@ -89,7 +89,9 @@ impl ManifestPack {
             pack_header,
             header,
             reader,
-            directory_pack_info: directory_pack_info.unwrap(),
+            directory_pack_info: directory_pack_info.ok_or_else(|| -> Error {
+                format_error!("No directory pack listed in the manifest")
+            })?,
             pack_infos,
             check_info: OnceLock::new(),
             value_store,
